@@ -39,7 +39,7 @@ def mk_case(content=b"", chunks=(), netascii=False, options=(), max_bs=65464, ma
 def kind_sx(c):
     k = c["kind"]
     n = len(c["content"])
-    if k[0] == "noreg":
+    if k[0] in ("noreg", "bufshort"):
         return [2]
     if k[0] == "bytesio":
         return [0, n + k[1], k[1]]
@@ -75,6 +75,25 @@ class _LoggedFile:
         return self._f.__exit__(*a)
 
 
+class BufferedChunkedStream(io.BufferedIOBase):
+    """an io.BufferedIOBase subclass whose read(n) still returns short reads (allowed: "at most n bytes")"""
+    def __init__(self, content, chunks):
+        super().__init__()
+        self._raw = fake_net.ChunkedStream(content, chunks)
+
+    def readable(self):
+        return True
+
+    def read(self, n=-1):
+        return self._raw.read(n)
+
+    def read1(self, n=-1):
+        return self._raw.read(n)
+
+    def fileno(self):
+        raise io.UnsupportedOperation("fileno")
+
+
 class _LoggedBytesIO(io.BytesIO):
     """a real io.BytesIO (so that isinstance checks in the code under test hold) whose release is logged"""
     _log = None
@@ -89,6 +108,8 @@ def open_stream(c, log, tmpfiles):
     k = c["kind"]
     if k[0] == "noreg":
         f = fake_net.ChunkedStream(c["content"], c["chunks"])
+    elif k[0] == "bufshort":
+        f = BufferedChunkedStream(c["content"], c["chunks"])
     elif k[0] == "bytesio":
         f = _LoggedBytesIO(b"P" * k[1] + c["content"])
         f._log = log
